@@ -93,6 +93,7 @@ class TextFileStorage(Storage[str]):
         self._storage_lock = multiprocessing.RLock()
 
         self._opened_files_for_reading = []
+        self._opened_files_for_reading_pid = os.getpid()
         self.reader_only = reader_only
 
         self._waiting_for = multiprocessing.Value('i', 0)
@@ -170,6 +171,14 @@ class TextFileStorage(Storage[str]):
 
         :param process_identifier: Process identifier.
         """
+        if self._opened_files_for_reading_pid != os.getpid():
+            # the files were opened in parent process, so their positions are shared with it, this process needs its own
+            for f in self._opened_files_for_reading:
+                if f is not None:
+                    f.close()
+            self._opened_files_for_reading = []
+            self._opened_files_for_reading_pid = os.getpid()
+
         if process_identifier >= len(self._opened_files_for_reading):
             self._opened_files_for_reading.extend(
                 [None] * (process_identifier - len(self._opened_files_for_reading) + 1)
@@ -185,6 +194,10 @@ class TextFileStorage(Storage[str]):
         :param process_identifier: Process identifier.
         :return: True if file for given process identifier is opened for reading.
         """
+        if self._opened_files_for_reading_pid != os.getpid():
+            # opened in parent process
+            return False
+
         if process_identifier >= len(self._opened_files_for_reading):
             return False
 
